@@ -187,7 +187,9 @@ Verdict check_alloc(const Plan& plan, Stats& st) {
                 break;
             }
             (void)hdr_ovf;
-            if (total > unsatisfiable && !(old && total <= old_size)) {
+            // (a block that sits in a sparse multi-GiB grant keeps that capacity after it was shrunk: growing it again in place is legitimate)
+            const bool in_sparse = old && huge_find(old, true) != nullptr;
+            if (total > unsatisfiable && !(old && total <= old_size) && !(in_sparse && res == old)) {
                 if (res) fail(i, "realloc(" + std::to_string(total) + ") returned non-NULL for a size no backend can deliver");
                 old_intact(); st.probe("huge_request_refused");
                 break;
